@@ -29,7 +29,7 @@ def _describe(tier):
         'bounds': 'N<=%d exhaustive over partitions x 2 content variants' % n,
         'assumptions': ['substring absence is decided for the generated values only (values are outside the alphabet); chance hit < 2^-40 per case',
                         'ciphertext entries are located by position in the pickled structure (per-scheme extractor in mc/sse.py)'],
-        'must_be_nonzero': ['repeat-variant', 'dup-in-list-variant', 'scheme-copies-compared', 'ciphertext-entries', 'two-setups'],
+        'must_be_nonzero': ['repeat-variant', 'dup-in-list-variant', 'scheme-copies-compared', 'ciphertext-entries', 'two-setups', 'forked-worker-setups-compared'],
     }
 
 
